@@ -26,6 +26,11 @@ if os.path.isdir(sd):
         if os.path.exists(mp):
             m = json.load(open(mp))
             items.append((name, 'seeded', m.get('property','?'), os.path.join(sd,name,'patch.diff'), m.get('expected_rule')))
+bd = here+'/benign_agents'
+if os.path.isdir(bd):
+    for name in sorted(os.listdir(bd)):
+        if os.path.exists(os.path.join(bd,name,'patch.diff')):
+            items.append((name, 'benign', '-', os.path.join(bd,name,'patch.diff'), None))
 if klass != 'all': items = [x for x in items if x[1] == klass]
 if only: items = [x for x in items if x[0] == only]
 
